@@ -1,6 +1,7 @@
 import BeffVerif.Props.C13
 import BeffVerif.Props.C13Inj
 import BeffVerif.Props.C13Tree
+import BeffVerif.Props.C13Rec
 open BeffVerif.C13
 #print axioms writer_digest_eq_spec
 #print axioms writer_digest_eq_spec_param
@@ -19,3 +20,9 @@ open BeffVerif.C13
 #print axioms BeffVerif.C13T.same_stream_same_behaviour
 #print axioms BeffVerif.C13T.different_behaviour_different_stream
 #print axioms BeffVerif.C13T.different_behaviour_different_bytes
+#print axioms BeffVerif.C13R.stream_self_delimiting
+#print axioms BeffVerif.C13R.root_streams_equal
+#print axioms BeffVerif.C13R.claimB_all
+#print axioms BeffVerif.C13R.same_stream_same_behaviour_rec
+#print axioms BeffVerif.C13R.different_behaviour_different_stream_rec
+#print axioms BeffVerif.C13R.different_behaviour_different_bytes_rec
